@@ -513,6 +513,7 @@ impl FuncSpec {
 // ---------------------------------------------------------------------------
 
 pub fn gen_len(rng: &mut Rng, allow_long: bool) -> usize {
+    // `allow_long` is always on in the thorough tier, which also gets a handful of million-segment functions
     match rng.below(100) {
         0..=9 => 1,
         10..=29 => 2,
